@@ -3,6 +3,7 @@
 package c16
 
 import (
+	"fmt"
 	"math/big"
 	"sync"
 	"sync/atomic"
@@ -323,4 +324,118 @@ func TestVerifDLAdaptive(t *testing.T) {
 			}
 		}
 	}
+}
+
+// TestVerifOPRFRekeyedServerKey: "the client's finalised outputs equal the
+// server's direct evaluation" for every server key, also when the server's
+// key OBJECT is loaded with a new key after it has served requests under the
+// old one (same infos, same inputs): FullEvaluate and the blind protocol
+// under the reloaded object must equal those of a fresh object holding the
+// new key, in all three modes.
+func TestVerifOPRFRekeyedServerKey(t *testing.T) {
+	const mon = "TestVerifOPRFRekeyedServerKey"
+	lib.Mandatory("oprf-rekey:histories")
+	suites := []oprf.Suite{oprf.SuiteRistretto255, oprf.SuiteP256, oprf.SuiteP384, oprf.SuiteP521}
+	modes := []oprf.Mode{oprf.BaseMode, oprf.VerifiableMode, oprf.PartialObliviousMode}
+	for si, su := range suites {
+		for _, m := range modes {
+			for h := 0; h < lib.Scale(2, 12); h++ {
+				r := lib.NewRng("c16/rekey/"+su.Identifier(), int(m)*100+h)
+				infos := [][]byte{r.Bytes(5), nil, r.Bytes(40)}
+				inputs := [][]byte{r.Bytes(10), r.Bytes(1)}
+				var keys [][]byte
+				for k := 0; k < 3; k++ {
+					sk, _ := oprf.DeriveKey(su, m, r.Bytes(32), r.Bytes(4))
+					b, _ := sk.MarshalBinary()
+					keys = append(keys, b)
+				}
+				lib.CaseS("oprf-rekey", su.Identifier(), modeName(m), string(rune('a'+h)))
+				lib.Count("oprf-rekey:histories")
+				var used oprf.PrivateKey
+				bad := false
+				for step := 0; step < 5 && !bad; step++ {
+					kb := keys[(step*2+si)%len(keys)]
+					if err := used.UnmarshalBinary(su, lib.Clone(kb)); err != nil {
+						lib.Violation("C16:own-key-refused:oprf.PrivateKey.UnmarshalBinary", mon, lib.D("err", err))
+						return
+					}
+					var fresh oprf.PrivateKey
+					_ = fresh.UnmarshalBinary(su, lib.Clone(kb))
+					for _, info := range infos {
+						for _, in := range inputs {
+							a, e1 := oFull(su, m, &used, in, info)
+							b, e2 := oFull(su, m, &fresh, in, info)
+							// the blind protocol against the re-keyed object
+							fd, req, berr := oBlind(su, m, fresh.Public(), [][]byte{in}, nil)
+							var outs [][]byte
+							var perr error
+							if berr == nil {
+								var ev *oprf.Evaluation
+								if ev, perr = oEvaluate(su, m, &used, req, info); perr == nil {
+									outs, perr = oFinalize(su, m, fresh.Public(), fd, ev, info)
+								}
+							}
+							if (e1 == nil) != (e2 == nil) || !lib.Eq(a, b) || berr != nil || perr != nil || len(outs) != 1 || !lib.Eq(outs[0], b) {
+								lib.Violation("C16:output-mismatch:oprf."+modeName(m)+":server-key-object-reloaded", mon,
+									lib.D("suite", su.Identifier(), "step", step, "info", info, "input", in, "reloaded_object", a, "fresh_object", b,
+										"protocol_error", fmt.Sprint(perr), "note", "the key object served requests under its previous key"))
+								bad = true
+							}
+						}
+					}
+				}
+			}
+		}
+	}
+}
+
+// TestVerifQNDLEQEmptyChallenge: the known finding of qndleq is that the
+// PROVER chooses SecParam, so that with SecParam = 0 the challenge is empty
+// (and with SecParam 1..8 a forgery costs a search over at most 256
+// challenges).  What must still hold: for SecParam >= 1 the challenge is NOT
+// empty - the fixed proof (Z arbitrary, C = 0) verifies for a false statement
+// only when the hash happens to be 0, i.e. for about one statement in 2^SecParam
+// (rounded up to whole octets: one in 256 for SecParam 1..8).  24 independent
+// false statements per SecParam; more than a third of them accepted means the
+// challenge carries no information.
+func TestVerifQNDLEQEmptyChallenge(t *testing.T) {
+	const mon = "TestVerifQNDLEQEmptyChallenge"
+	lib.Mandatory("qndleq-empty-challenge:statements")
+	N := new(big.Int).Mul(mustBigDec("1000000000000000000000007"), mustBigDec("1000000000000000000000049"))
+	for sp := uint(1); sp <= 20; sp++ {
+		accepted := 0
+		const tries = 24
+		for i := 0; i < tries; i++ {
+			r := lib.NewRng("c16/qndleq-empty", int(sp)*100+i)
+			sq := func() *big.Int {
+				v := new(big.Int).SetBytes(r.Bytes(24))
+				v.Mod(v, N)
+				return v.Mul(v, v).Mod(v, N)
+			}
+			g, h, gx, hx := sq(), sq(), sq(), sq() // independent squares: log_g(gx) != log_h(hx)
+			pf := qndleq.Proof{Z: new(big.Int).SetBytes(r.Bytes(20)), C: new(big.Int), SecParam: sp}
+			ok := false
+			if pn := lib.Try("qndleq.Proof.Verify:empty-challenge", nil, func() { ok = pf.Verify(g, gx, h, hx, N) }); pn != nil {
+				continue
+			}
+			lib.Count("qndleq-empty-challenge:statements")
+			if ok {
+				accepted++
+			}
+		}
+		lib.CaseS("qndleq-empty-challenge", fmt.Sprint(sp))
+		if accepted*3 > tries {
+			lib.Violation("C16:forge:qndleq.Proof.Verify:empty-challenge-for-nonzero-SecParam", mon,
+				lib.D("SecParam", sp, "false_statements_tried", tries, "accepted_with_C_equal_0", accepted,
+					"note", "a proof (Z arbitrary, C = 0) verifies for most false statements although SecParam >= 1"))
+		}
+	}
+}
+
+func mustBigDec(s string) *big.Int {
+	v, ok := new(big.Int).SetString(s, 10)
+	if !ok {
+		panic(s)
+	}
+	return v
 }
